@@ -172,10 +172,10 @@ def shard_words(acc, shard, nshards, max_n):
 
 def shard_contain(acc, shard, nshards, max_n):
     i = 0
-    for n in range(1, max_n + 1):
+    for n in range(0, max_n + 1):
         for w in pin.language(n):
             if i % nshards == shard:
-                for k in range(1, n + 1):
+                for k in range(0, n + 1):  # k = 0: the empty permutation (pin word "") is contained in everything
                     for sigma in ref.perms(k):
                         acc.record("contain", check_contain, {"w": w, "sigma": list(sigma)})
             i += 1
@@ -202,7 +202,7 @@ def pin_words(draw, min_len=1, max_len=8):
 def contain_cases(draw):
     w = draw(pin_words(2, 8))
     pw = pin.decode(w)
-    k = draw(st.integers(1, min(5, len(pw))))
+    k = draw(st.integers(0, min(5, len(pw))))
     idx = sorted(draw(st.lists(st.integers(0, len(pw) - 1), min_size=k, max_size=k, unique=True)))
     sigma = list(ref.subperm(pw, idx))
     near = draw(st.booleans())
